@@ -19,7 +19,7 @@ MEDIA = ['screen', 'print', 'all', 'tv', 'handheld', 'projection', 'SCREEN', 'au
 MARGINS = ['@top-left', '@top-center', '@bottom-right', '@left-middle', '@TOP-right', '@bottom-left-corner']
 STRINGS = ['"s"', "'s'", '"a b"', '""', '"a\\"b"', "'a\\'b'", '"}"', '"{"', '";"', '"a\\a b"', '"x/*y*/"', "'\"'",
            '"\\\\"', '"ä"', '" "', '"a,b"', '"+"']
-URLS = ['url(a)', 'url(a.png)', 'url("a b")', "url('x')", 'url(a\\ b)', 'url()', 'url("a)b")', 'url( x )', 'URL(y)',
+URLS = ['url("a\\7f b")', 'url(a)', 'url(a.png)', 'url("a b")', "url('x')", 'url(a\\ b)', 'url()', 'url("a)b")', 'url( x )', 'URL(y)',
         'url(http://e.org/a?b=c&d)']
 HASHES = ['#aabcbb', '#abbacc', '#aabbc0', '#fff', '#aabbcc', '#AABBCC', '#abcdef', '#aabbcd', '#112233', '#a1b2c3', '#AaBbCc', '#00000000', '#12']
 
@@ -330,6 +330,9 @@ def sheet(r, size=None):
         vs = []
         for _ in range(r.randint(0, 3)):
             vs.append('%s: %s' % (r.choice(['a', 'B', 'b', 'c1', 'A']), component(r)))
+        if vs and r.random() < 0.3:
+            # the block ends with an escaped blank (part of the last value, not white space)
+            vs.append('%s: %s' % (r.choice(['a', 'b']), r.choice(['e\\ ', 'x e\\ ', '1px e\\ '])))
             if r.random() < 0.2:
                 vs.append(comment(r))
         out.append('%s {%s}' % (r.choice(['@variables', '@variables', '@VARIABLES']), '; '.join(vs)))
